@@ -389,7 +389,12 @@ def gen_concurrent(rng):
             'finals': [rng.choice([rps.DONE, rps.DONE, rps.FAILED,
                                    rps.CANCELED]) for _ in range(n)],
             'pilot_final': rng.choice([rps.FAILED, rps.DONE, rps.CANCELED]),
-            'delay': rng.choice([0, 0, 0.0005, 0.001, 0.003, 0.006])}
+            'delay': rng.choice([0, 0, 0.0005, 0.001, 0.003, 0.006]),
+            # both orders without any overlap are part of the class: the late
+            # notification for a task of a pilot which ended before, and the
+            # end of a pilot whose tasks ended before
+            'order': rng.choice(['race', 'race', 'pilot_first',
+                                 'tasks_first'])}
 
 
 def run_concurrent(case, res):
@@ -450,8 +455,17 @@ def run_concurrent(case, res):
     try:
         a = mt.Thread(target=notify, name='state-sub')
         b = mt.Thread(target=die,    name='pilot-cb')
-        a.start(); b.start()
-        a.join(timeout=30); b.join(timeout=30)
+        order = case.get('order', 'race')
+        res.see('concurrent_orders', order)
+        if order == 'pilot_first':
+            b.start(); b.join(timeout=30)
+            a.start(); a.join(timeout=30)
+        elif order == 'tasks_first':
+            a.start(); a.join(timeout=30)
+            b.start(); b.join(timeout=30)
+        else:
+            a.start(); b.start()
+            a.join(timeout=30); b.join(timeout=30)
     finally:
         m_task.Task._update = orig
 
